@@ -4,3 +4,4 @@
 -/
 import RosuModel.Props.C12Exact
 import RosuModel.Props.C12Ieee
+import RosuModel.Props.C12IeeeSorted
